@@ -120,17 +120,18 @@ func newSess(e *env, r *mon.Rand, kind string, sig int) *sess {
 	switch kind {
 	case "sm2.key": // one *sm2.PrivateKey (lazy (d+1)^-1 cache) signing, and encrypting to its own public half
 		d := randScalar(r, sm2N)
-		key, err := sm2Key(d)
-		if err != nil {
-			panic("c12 harness: " + err.Error())
-		}
-		s.inputs = fmt.Sprintf("one sm2.PrivateKey d=%064x", d)
-		s.ops = append(s.ops, opsOf(catalogue("sm2.sign"), "sign", func(v string) func(*mon.Rand) *call {
+		alias := r.Intn(3) == 0 // the key object names the SM2 curve by a copy of its parameters
+		key := sm2KeyOn(d, alias)
+		s.inputs = fmt.Sprintf("one sm2.PrivateKey d=%064x curve-named-by-params-copy=%v", d, alias)
+		for _, so := range append(opsOf(catalogue("sm2.sign"), "sign", func(v string) func(*mon.Rand) *call {
 			return func(r *mon.Rand) *call { return prepSM2SignOn(key, d, r, v) }
-		})...)
-		s.ops = append(s.ops, opsOf(catalogue("sm2.encrypt"), "encrypt", func(v string) func(*mon.Rand) *call {
+		}), opsOf(catalogue("sm2.encrypt"), "encrypt", func(v string) func(*mon.Rand) *call {
 			return func(r *mon.Rand) *call { return prepSM2EncryptOn(key, d, r, v) }
-		})...)
+		})...) {
+			if isAlias(so.variant) == alias {
+				s.ops = append(s.ops, so)
+			}
+		}
 	case "sm2.key.nistp256": // the math/big path
 		d := randScalar(r, nistN)
 		generic := r.Bool() || pureGo()
@@ -152,15 +153,20 @@ func newSess(e *env, r *mon.Rand, kind string, sig int) *sess {
 			variant = []string{"", "(sig)"}[sig]
 		}
 		p := newKxParties(r, variant)
+		p.alias = r.Intn(3) == 0
 		s.confirm = p.sig
 		late := r.Bool() // constructed without the peer's key and identity; SetPeerParameters when first needed
 		ko := newSM2KxObj(p, late)
 		s.inputs = fmt.Sprintf("one sm2.KeyExchange %s peer-parameters-at-construction=%v", p, !late)
 		s.ops = []sessOp{
 			{tag: "init", o: catalogue("sm2.kx.init"), variant: "InitKeyExchange" + variant,
-				prep: func(r *mon.Rand) *call { return sm2KxInitCall(ko, p, randScalar(r, sm2N)) }},
+				prep: func(r *mon.Rand) *call {
+					return sm2KxInitCall(ko, p, randScalar(r, sm2N), argCurveNames[r.Intn(len(argCurveNames))])
+				}},
 			{tag: "respond", o: catalogue("sm2.kx.respond"), variant: "RepondKeyExchange" + variant,
-				prep: func(r *mon.Rand) *call { return sm2KxRespondCall(ko, p, randScalar(r, sm2N)) }},
+				prep: func(r *mon.Rand) *call {
+					return sm2KxRespondCall(ko, p, randScalar(r, sm2N), argCurveNames[r.Intn(len(argCurveNames))])
+				}},
 		}
 		s.aux["destroy"] = sessOp{tag: "destroy", aux: "destroy", prep: func(*mon.Rand) *call {
 			return &call{inputs: "Destroy()", run: func(io.Reader) (o outcome) { ko.ke.Destroy(); ko.destroyed = true; return }}
